@@ -44,6 +44,11 @@ def run(tier, seed):
     near = [vp.L(vp.I(1), vp.I(3)), vp.T(vp.I(1), vp.S("b")), vp.D([("a", vp.I(2))]), vp.E("Some", vp.L(vp.I(1))), vp.ST(vp.I(1), vp.S("t")),
             vp.L(vp.L(vp.I(2))), vp.E("Ok", vp.E("Some", vp.I(1))), vp.E("V2", vp.I(4)),
             vp.L(vp.I(1)), vp.T(vp.I(1)), vp.D([("b", vp.I(1))]), vp.E("Err", vp.L()), vp.ST(vp.I(2), vp.S("s"))]
+    # variants of DIFFERENT enums that share a variant index and payload
+    cross = [(vp.E("None"), vp.E("False")), (vp.E("True"), vp.E("Unit")), (vp.E("Some", vp.I(1)), vp.E("Ok", vp.I(1))),
+             (vp.E("V1"), vp.E("True")), (vp.E("V2", vp.I(3)), vp.E("Err", vp.I(3))), (vp.E("None"), vp.E("Err", vp.I(1))),
+             (vp.E("V1"), vp.E("Unit")), (vp.E("Some", vp.S("w")), vp.E("Ok", vp.S("w"))), (vp.E("W1", vp.S("w")), vp.E("Some", vp.S("w"))),
+             (vp.L(vp.E("None")), vp.L(vp.E("False"))), (vp.T(vp.I(1), vp.E("True")), vp.T(vp.I(1), vp.E("Unit")))]
     allv = vals + base + near
     nb = len(vals)
     for i in range(len(base)):
@@ -51,6 +56,9 @@ def run(tier, seed):
             pairs.append((nb + i, nb + j))
             pairs.append((nb + j, nb + i))
     cases = [{"id": n, "a": allv[i], "b": allv[j]} for n, (i, j) in enumerate(pairs)]
+    for a, b in cross:
+        cases.append({"id": len(cases), "a": a, "b": b})
+        cases.append({"id": len(cases), "a": b, "b": a})
     d = scratch_dir("c13")
     try:
         path = os.path.join(d, "cases.ndjson")
@@ -88,7 +96,7 @@ def run(tier, seed):
     vacuity(ntrue > 100, f"only {ntrue} pairs are structurally equal")
     ck.assumptions += ["values are built by two different routes so that no sharing of runtime representation can make them equal by accident",
                        "transitivity follows from agreement with VEq (an equivalence) on all compared pairs, it is not tested separately"]
-    return ck.finish(rule="reflexive pairs (two construction routes) for every pool value, all ordered pairs within a kind (sampled above 12 per kind), seeded random cross-kind pairs, and near-miss pairs differing in one element / key / payload / length; "
+    return ck.finish(rule="reflexive pairs (two construction routes) for every pool value, all ordered pairs within a kind (sampled above 12 per kind), seeded random cross-kind pairs, near-miss pairs differing in one element / key / payload / length, and variants of different enums sharing index and payload; "
                           "each pair checks a == b, a != b and b == a; non-trivial = non-integer or equal pairs")
 
 
